@@ -203,6 +203,9 @@ def rand_graph(r, nenv, h, nodes=(1, 8), simple=True, p_edge=0.45):
             elif edges:               # parallel edge
                 e = r.choice(edges)
                 edges.append({"i": e["j"], "j": e["i"], "sfc": h * h * r.uniform(0.3, 2.0), "dst": h * r.uniform(0.5, 2.0)})
+    for e in edges:
+        if r.random() < 0.06:
+            e["sfc"] = 0.0            # an interface without contact surface (a closed gate): a valid edge that carries no flux
     r.shuffle(edges)
     return {"type": "graph", "nodes": ns, "edges": edges}
 
